@@ -1,93 +1,245 @@
-(** The command processor's relay of copy commands between the driver and the
-    DMA engine (amd/timing/cp/cpMiddleware.go: processMemCopyReq,
-    cloneMemCopyH2DReq/D2HReq, processMemCopyRsp, findAndRemoveOriginalMemCopyRequest).
-    The results of ToDMA.Send and ToDriver.Send are ignored by the Go code: when
-    the outgoing buffer is full the message is lost while the incoming one is
-    still consumed.  The model shows that loss; the relay theorem carries
-    [outgoing_not_full] as an explicit premise.  This file is a hand
-    transcription that no harness ties to the code (see docs/C11.md). *)
-From Coq Require Import List NArith Bool Lia.
-Import ListNotations.
+(** Executable model of the command processor's handling of cache flushes and
+    host-device copies (amd/timing/cp: cpMiddleware.go processFlushReq,
+    processMemCopyReq, cloneMemCopyH2DReq/D2HReq, processMemCopyRsp,
+    findAndRemoveOriginalMemCopyRequest, flushCache; ctrlMiddleware.go
+    processRspFromCaches, processCacheFlushRsp, processRegularCacheFlush;
+    commandprocessor.go Tick), driven through its driver-side, DMA-side and
+    cache-side ports.  Kernel launches, shootdowns, RDMA and page migration are
+    outside this model (the environment sends none of their messages).
+    Definitions only; proofs are in CpRelayProofs.v. *)
+From Coq Require Import List NArith Bool.
+From RecordUpdate Require Import RecordSet.
+Import ListNotations RecordSetNotations.
 Open Scope N_scope.
 
+(** Requests of the driver. [DOther]: a message none of the two middlewares handles. *)
+Inductive dkind := DFlush | DH2D | DD2H | DOther.
+Record dreq := mkDReq { q_id : N; q_kind : dkind; q_src : N }.
+
+(** sim.GeneralRsp to the driver: ID and kind of the original request, destination. *)
+Record drsp := mkDRsp { p_orig : N; p_kind : dkind; p_dst : N }.
+
+(** The copy request as forwarded to the DMA engine (fresh ID). *)
+Record clone := mkClone { cl_id : N; cl_orig : N; cl_kind : dkind }.
+
+Inductive dmamsg := MRsp (rspto : N) | MOther.     (* ToDMA incoming *)
+Inductive cachemsg := CAck | CBad.                 (* ToCaches incoming: cache.FlushRsp / anything else *)
+
+Definition P_DRIVER : N := 1.                      (* CommandProcessor.Driver *)
+Definition PORT_CAP : N := 4096.                   (* ToDMA, ToCaches *)
+Definition CLONE_BASE : N := 1000000.
+Definition U64_MAX : N := 18446744073709551615.
+
 Record cp := mkCp {
-  drv_in : list N;            (* ToDriver incoming: IDs of copy requests of the driver *)
-  dma_out : list (N * N);     (* ToDMA outgoing: (clone ID, original ID) *)
-  dma_in : list N;            (* ToDMA incoming: completions, by clone ID *)
-  drv_out : list N;           (* ToDriver outgoing: completions, by original ID *)
-  table : list (N * N);       (* bottomMemCopy*ReqIDToTopReqMap: clone ID -> original *)
+  ncache : nat;               (* L1I + L1S + L1V + L2 caches, flushed in this order *)
+  dcap : N;                   (* capacity of ToDriver's buffers (4096; small in the harness) *)
+  drv_in : list dreq; drv_out : list drsp;         (* port ToDriver *)
+  dma_out : list clone; dma_in : list dmamsg;      (* port ToDMA *)
+  cache_out : list N; cache_in : list cachemsg;    (* port ToCaches: flush requests by cache index *)
+  tab_h2d : list (N * dreq);  (* bottomMemCopyH2DReqIDToTopReqMap *)
+  tab_d2h : list (N * dreq);  (* bottomMemCopyD2HReqIDToTopReqMap *)
+  acks : N;                   (* numCacheACK (uint64) *)
+  cur_flush : option dreq;    (* currFlushRequest *)
   fresh : N;                  (* ID generator *)
-  capacity : nat;             (* outgoing buffer capacity of both ports (4096) *)
-  flushing : bool;            (* numCacheACK > 0 *)
   panicked : bool;
-  lost : list N               (* ghost: original IDs of messages dropped by an ignored Send error *)
+  (* ghost logs: never read by the transition function *)
+  g_deliv : list dreq;                 (* requests whose Deliver was accepted *)
+  g_cons : list dreq;                  (* requests taken from ToDriver *)
+  g_issued : N; g_acked : N;           (* cache flush requests sent / cache answers processed *)
+  g_wrapped : bool;                    (* numCacheACK was decremented at 0 *)
+  g_fwd : list (clone * bool * N * N); (* copies cloned: (clone, sent?, issued, acked at that time) *)
+  g_rsp : list (drsp * bool * N * N);  (* responses built: (response, sent?, issued, acked at that time) *)
+  g_retr : list drsp                   (* responses retrieved by the driver side *)
 }.
 
-Definition has_room (s : cp) {A} (b : list A) : bool := Nat.ltb (length b) (capacity s).
+#[export] Instance eta_cp : Settable _ := settable! mkCp
+  <ncache; dcap; drv_in; drv_out; dma_out; dma_in; cache_out; cache_in; tab_h2d; tab_d2h;
+   acks; cur_flush; fresh; panicked; g_deliv; g_cons; g_issued; g_acked; g_wrapped; g_fwd; g_rsp; g_retr>.
 
-(** processMemCopyReq *)
-Definition relay_req (s : cp) : cp :=
-  if flushing s then s else
+Definition init (n : nat) (cap : N) : cp :=
+  mkCp n cap [] [] [] [] [] [] [] [] 0 None CLONE_BASE false [] [] 0 0 false [] [] [].
+
+Definition room {A} (cap : N) (b : list A) : bool := N.of_nat (length b) <? cap.
+
+(** m.ToDriver.Send(rsp) with the result ignored: the response is lost when the buffer is full. *)
+Definition send_drv (s : cp) (r : drsp) : cp :=
+  let ok := room (dcap s) (drv_out s) in
+  s <| drv_out := if ok then drv_out s ++ [r] else drv_out s |>
+    <| g_rsp := g_rsp s ++ [(r, ok, g_issued s, g_acked s)] |>.
+
+Definition panic (s : cp) : cp * bool := (s <| panicked := true |>, false).
+
+(** processFlushReq *)
+Definition process_flush (s : cp) (r : dreq) (rest : list dreq) : cp * bool :=
+  if 0 <? acks s then (s, false) else
+  let idx := map N.of_nat (seq 0 (ncache s)) in
+  if negb (N.of_nat (length (cache_out s) + ncache s) <=? PORT_CAP) then panic s else   (* flushCache: panic(err) *)
+  let s1 := s <| cache_out := cache_out s ++ idx |>
+              <| acks := N.of_nat (ncache s) |>
+              <| g_issued := g_issued s + N.of_nat (ncache s) |>
+              <| cur_flush := Some r |> in
+  let s2 := if acks s1 =? 0 then send_drv s1 (mkDRsp (q_id r) DFlush P_DRIVER) else s1 in
+  (s2 <| drv_in := rest |> <| g_cons := g_cons s ++ [r] |>, true).
+
+(** processMemCopyReq: the copy is held back while cache flushes are unacknowledged. *)
+Definition process_copy (s : cp) (r : dreq) (rest : list dreq) : cp * bool :=
+  if 0 <? acks s then (s, false) else
+  let c := mkClone (fresh s) (q_id r) (q_kind r) in
+  let ok := room PORT_CAP (dma_out s) in      (* m.ToDMA.Send(cloned), result ignored *)
+  (s <| tab_h2d := match q_kind r with DH2D => (fresh s, r) :: tab_h2d s | _ => tab_h2d s end |>
+     <| tab_d2h := match q_kind r with DD2H => (fresh s, r) :: tab_d2h s | _ => tab_d2h s end |>
+     <| fresh := fresh s + 1 |>
+     <| dma_out := if ok then dma_out s ++ [c] else dma_out s |>
+     <| drv_in := rest |>
+     <| g_cons := g_cons s ++ [r] |>
+     <| g_fwd := g_fwd s ++ [(c, ok, g_issued s, g_acked s)] |>, true).
+
+(** cpMiddleware.Handle *)
+Definition cp_handle (s : cp) : cp * bool :=
   match drv_in s with
-  | [] => s
+  | [] => (s, false)
   | r :: rest =>
-    let c := fresh s in
-    let sent := has_room s (dma_out s) in
-    mkCp rest (if sent then dma_out s ++ [(c, r)] else dma_out s) (dma_in s) (drv_out s)
-         ((c, r) :: table s) (c + 1) (capacity s) (flushing s) (panicked s)
-         (if sent then lost s else lost s ++ [r])
-  end.
-
-Fixpoint lookup (c : N) (t : list (N * N)) : option N :=
-  match t with [] => None | (k, v) :: r => if k =? c then Some v else lookup c r end.
-Definition remove (c : N) (t : list (N * N)) := filter (fun e => negb (fst e =? c)) t.
-
-(** processMemCopyRsp *)
-Definition relay_rsp (s : cp) : cp :=
-  match dma_in s with
-  | [] => s
-  | c :: rest =>
-    match lookup c (table s) with
-    | None => mkCp (drv_in s) (dma_out s) (dma_in s) (drv_out s) (table s) (fresh s) (capacity s)
-                   (flushing s) true (lost s)                       (* panic("never") *)
-    | Some r =>
-      let sent := has_room s (drv_out s) in
-      mkCp (drv_in s) (dma_out s) rest (if sent then drv_out s ++ [r] else drv_out s)
-           (remove c (table s)) (fresh s) (capacity s) (flushing s) (panicked s)
-           (if sent then lost s else lost s ++ [r])
+    match q_kind r with
+    | DFlush => process_flush s r rest
+    | DH2D | DD2H => process_copy s r rest
+    | DOther => (s, false)
     end
   end.
 
-Definition outgoing_not_full (s : cp) : Prop :=
-  has_room s (dma_out s) = true /\ has_room s (drv_out s) = true.
+Fixpoint lookup (c : N) (t : list (N * dreq)) : option dreq :=
+  match t with [] => None | (k, v) :: r => if k =? c then Some v else lookup c r end.
+Definition remove (c : N) (t : list (N * dreq)) := filter (fun e => negb (fst e =? c)) t.
 
-(** With room in the outgoing buffers the relay forwards the head request under
-    a fresh clone ID and remembers the pair; nothing is lost. *)
-Lemma relay_req_exact : forall s r rest, flushing s = false -> drv_in s = r :: rest ->
-  outgoing_not_full s ->
-  let s' := relay_req s in
-  drv_in s' = rest /\ dma_out s' = dma_out s ++ [(fresh s, r)] /\
-  lookup (fresh s) (table s') = Some r /\ lost s' = lost s.
-Proof.
-  intros s r rest Hf Hin [H1 _]. unfold relay_req. rewrite Hf, Hin, H1. cbn.
-  rewrite N.eqb_refl. auto.
-Qed.
+(** cpMiddleware.HandleInternal = processRspFromDMAs / processMemCopyRsp *)
+Definition cp_internal (s : cp) : cp * bool :=
+  match dma_in s with
+  | [] => (s, false)
+  | MOther :: _ => panic s
+  | MRsp c :: rest =>
+    match lookup c (tab_h2d s) with
+    | Some r =>
+      (send_drv (s <| tab_h2d := remove c (tab_h2d s) |>) (mkDRsp (q_id r) (q_kind r) (q_src r))
+         <| dma_in := rest |>, true)
+    | None =>
+      match lookup c (tab_d2h s) with
+      | Some r =>
+        (send_drv (s <| tab_d2h := remove c (tab_d2h s) |>) (mkDRsp (q_id r) (q_kind r) (q_src r))
+           <| dma_in := rest |>, true)
+      | None => panic s
+      end
+    end
+  end.
 
-Lemma relay_rsp_exact : forall s c rest r, dma_in s = c :: rest -> lookup c (table s) = Some r ->
-  outgoing_not_full s ->
-  let s' := relay_rsp s in
-  dma_in s' = rest /\ drv_out s' = drv_out s ++ [r] /\ lost s' = lost s /\ panicked s' = panicked s.
-Proof.
-  intros s c rest r Hin Hl [_ H2]. unfold relay_rsp. rewrite Hin, Hl, H2. cbn. auto.
-Qed.
+(** ctrlMiddleware.HandleInternal restricted to the caches: processCacheFlushRsp / processRegularCacheFlush *)
+Definition ctrl_internal (s : cp) : cp * bool :=
+  match cache_in s with
+  | [] => (s, false)
+  | CBad :: _ => panic s
+  | CAck :: rest =>
+    let wrap := acks s =? 0 in
+    let s1 := s <| acks := if wrap then U64_MAX else acks s - 1 |>
+                <| cache_in := rest |>
+                <| g_acked := g_acked s + 1 |>
+                <| g_wrapped := g_wrapped s || wrap |> in
+    if acks s1 =? 0 then
+      match cur_flush s1 with
+      | Some f => (send_drv s1 (mkDRsp (q_id f) DFlush (q_src f)) <| cur_flush := None |>, true)
+      | None => panic s1
+      end
+    else (s1, true)
+  end.
 
-(** Without that premise the command is consumed and disappears. *)
-Lemma relay_req_loses_when_full : forall s r rest, flushing s = false -> drv_in s = r :: rest ->
-  has_room s (dma_out s) = false ->
-  let s' := relay_req s in drv_in s' = rest /\ dma_out s' = dma_out s /\ lost s' = lost s ++ [r].
-Proof. intros s r rest Hf Hin H1. unfold relay_req. rewrite Hf, Hin, H1. cbn. auto. Qed.
+Definition andthen (f g : cp -> cp * bool) (s : cp) : cp * bool :=
+  let '(s1, p1) := f s in
+  if panicked s1 then (s1, p1) else
+  let '(s2, p2) := g s1 in (s2, p1 || p2).
 
-Lemma relay_rsp_loses_when_full : forall s c rest r, dma_in s = c :: rest -> lookup c (table s) = Some r ->
-  has_room s (drv_out s) = false ->
-  let s' := relay_rsp s in dma_in s' = rest /\ drv_out s' = drv_out s /\ lost s' = lost s ++ [r].
-Proof. intros s c rest r Hin Hl H2. unfold relay_rsp. rewrite Hin, Hl, H2. cbn. auto. Qed.
+(** middleware.Tick(); ctrlMiddleware.Tick() *)
+Definition round : cp -> cp * bool := andthen cp_handle (andthen cp_internal ctrl_internal).
+
+(** CommandProcessor.Tick: processReqFromDriver (only when a request waits), processRspFromInternal *)
+Definition tick (s : cp) : cp * bool :=
+  match drv_in s with
+  | [] => round s
+  | _ => andthen round round s
+  end.
+
+Inductive ev :=
+| EDrv (r : dreq) | EDma (m : dmamsg) | ECache (c : cachemsg)
+| ETick | ERetrDrv | ERetrDma | ERetrCache.
+
+Inductive obs :=
+| OAcc (b : bool) | OTick (p : bool) | ORsp (r : option drsp) | OClone (c : option clone)
+| OCache (i : option N) | OPanic.
+
+Definition step (s : cp) (e : ev) : cp * obs :=
+  if panicked s then (s, OPanic) else
+  match e with
+  | EDrv r =>
+    if room (dcap s) (drv_in s)
+    then (s <| drv_in := drv_in s ++ [r] |> <| g_deliv := g_deliv s ++ [r] |>, OAcc true)
+    else (s, OAcc false)
+  | EDma m =>
+    if room PORT_CAP (dma_in s) then (s <| dma_in := dma_in s ++ [m] |>, OAcc true) else (s, OAcc false)
+  | ECache c =>
+    if room PORT_CAP (cache_in s) then (s <| cache_in := cache_in s ++ [c] |>, OAcc true) else (s, OAcc false)
+  | ETick => let '(s', p) := tick s in if panicked s' then (s', OPanic) else (s', OTick p)
+  | ERetrDrv =>
+    match drv_out s with
+    | [] => (s, ORsp None)
+    | r :: t => (s <| drv_out := t |> <| g_retr := g_retr s ++ [r] |>, ORsp (Some r))
+    end
+  | ERetrDma =>
+    match dma_out s with [] => (s, OClone None) | c :: t => (s <| dma_out := t |>, OClone (Some c)) end
+  | ERetrCache =>
+    match cache_out s with [] => (s, OCache None) | i :: t => (s <| cache_out := t |>, OCache (Some i)) end
+  end.
+
+Definition run (s : cp) (evs : list ev) : cp := fold_left (fun s e => fst (step s e)) evs s.
+
+Fixpoint run_obs (s : cp) (evs : list ev) : list obs :=
+  match evs with [] => [] | e :: r => let '(s', o) := step s e in o :: run_obs s' r end.
+
+(** Correspondence with a recorded history of the implementation. *)
+Definition dkind_eqb (a b : dkind) : bool :=
+  match a, b with DFlush, DFlush | DH2D, DH2D | DD2H, DD2H | DOther, DOther => true | _, _ => false end.
+Definition drsp_eqb (a b : drsp) : bool :=
+  (p_orig a =? p_orig b) && dkind_eqb (p_kind a) (p_kind b) && (p_dst a =? p_dst b).
+Definition clone_eqb (a b : clone) : bool :=
+  (cl_id a =? cl_id b) && (cl_orig a =? cl_orig b) && dkind_eqb (cl_kind a) (cl_kind b).
+
+Definition obs_eqb (a b : obs) : bool :=
+  match a, b with
+  | OAcc x, OAcc y => Bool.eqb x y
+  | OTick x, OTick y => Bool.eqb x y
+  | ORsp None, ORsp None => true
+  | ORsp (Some x), ORsp (Some y) => drsp_eqb x y
+  | OClone None, OClone None => true
+  | OClone (Some x), OClone (Some y) => clone_eqb x y
+  | OCache None, OCache None => true
+  | OCache (Some x), OCache (Some y) => x =? y
+  | OPanic, OPanic => true
+  | _, _ => false
+  end.
+
+Record ccase := mkCCase { cc_ncache : nat; cc_cap : N; cc_trace : list (ev * obs) }.
+
+Fixpoint first_diff (i : nat) (l1 l2 : list obs) : option nat :=
+  match l1, l2 with
+  | [], [] => None
+  | a :: l1', b :: l2' => if obs_eqb a b then first_diff (S i) l1' l2' else Some i
+  | _, _ => Some i
+  end.
+
+Definition check_ccase (c : ccase) : option nat :=
+  first_diff 0 (run_obs (init (cc_ncache c) (cc_cap c)) (map fst (cc_trace c))) (map snd (cc_trace c)).
+
+Fixpoint cmismatches_from (i : nat) (cs : list ccase) : list (nat * nat) :=
+  match cs with
+  | [] => []
+  | c :: r => match check_ccase c with
+              | None => cmismatches_from (S i) r
+              | Some k => (i, k) :: cmismatches_from (S i) r
+              end
+  end.
+Definition cmismatches := cmismatches_from 0.
